@@ -675,7 +675,15 @@ func (g *Gen) genStmts(n int) []Stmt {
 		case 8:
 			g.push()
 			g.feat("stmt.block")
-			s = &Block{Body: g.genStmts(min(n, 2))}
+			var body []Stmt
+			if g.on("decl.dead-abstract-const") && r.Chance(1, 2) {
+				// an untyped (abstract) constant that nothing uses, alone in this block: dead code, but its name is live
+				// in the front end's tables; with ReuseLocalNames a later sibling or another function declares the same name
+				g.feat("decl.dead-abstract-const")
+				dv := &Var{Name: g.name("k"), Kind: VConst, Ty: I32}
+				body = append(body, &VarDecl{V: dv, Init: &Materialize{X: &Lit{Ty: AbsInt, I: int64(r.Range(1, 99))}, Ty: I32}})
+			}
+			s = &Block{Body: append(body, g.genStmts(min(n, 2))...)}
 			g.pop()
 		case 9:
 			g.feat("stmt.phony")
